@@ -290,23 +290,28 @@ def allFieldStmts (p : Char → Bool) (g : VIn) : List VField → List S1
   | [] => []
   | f :: r => fieldStmts p g f ++ allFieldStmts p g r
 
+def fieldNone : Part := { text := t "field = None", writes := [t "field"], safe := true }
+
 /-- `field = None` / `if '<tag key>' in o: i+=1` -/
 def tagStmts (p : Char → Bool) (g : VIn) : List S1 :=
   match g.tagKey with
-  | some k => if g.preAssign then
-      [.s0 (.line [{ text := t "field = None", writes := [t "field"], safe := true }]),
-       .ifc (pyRepr p k ++ t " in o") [t "o"] [] [] [.line [{ text := t "i+=1", reads := [t "i"], writes := [t "i"] }]]]
-    else []
+  | some k => if g.preAssign then [.s0 (.line [fieldNone]), .ifc (pyRepr p k ++ t " in o") [t "o"] [] [] [.line [incPart]]] else []
   | none => []
 
-def handlerStmts : List S0 :=
-  [.line [{ text := t "re_raise(e, cls, o, fields, field, locals().get('v1'))",
-            reads := [t "re_raise", t "e", t "cls", t "o", t "fields", t "field", t "locals"] }]]
+def handlerPart : Part :=
+  { text := t "re_raise(e, cls, o, fields, field, locals().get('v1'))",
+    reads := [t "re_raise", t "e", t "cls", t "o", t "fields", t "field", t "locals"] }
+
+def handlerStmts : List S0 := [.line [handlerPart]]
+
+def prePart : Part := { text := t "o = __pre_from_dict__(o)", reads := [t "__pre_from_dict__", t "o"], writes := [t "o"] }
+def kwPart : Part := { text := t "init_kwargs = {}", writes := [t "init_kwargs"] }
+def iPart : Part := { text := t "i = 0", writes := [t "i"] }
 
 def headStmts (g : VIn) : List S2 :=
-  (if g.preFromDict then [.s1 (.s0 (.line [{ text := t "o = __pre_from_dict__(o)", reads := [t "__pre_from_dict__", t "o"], writes := [t "o"] }]))] else [])
-  ++ (if g.hasDefaults then [.s1 (.s0 (.line [{ text := t "init_kwargs = {}", writes := [t "init_kwargs"] }]))] else [])
-  ++ (if g.preAssign then [.s1 (.s0 (.line [{ text := t "i = 0", writes := [t "i"] }]))] else [])
+  (if g.preFromDict then [.s1 (.s0 (.line [prePart]))] else [])
+  ++ (if g.hasDefaults then [.s1 (.s0 (.line [kwPart]))] else [])
+  ++ (if g.preAssign then [.s1 (.s0 (.line [iPart]))] else [])
 
 def fieldBlock (p : Char → Bool) (g : VIn) : List S2 :=
   match g.fields with
@@ -315,23 +320,35 @@ def fieldBlock (p : Char → Bool) (g : VIn) : List S2 :=
 
 def catchAllDef : S := t "{k: o[k] for k in o if k not in aliases}"
 
+def catchDfltPart (p : Char → Bool) (n : S) : Part :=
+  { text := t "init_kwargs[" ++ pyRepr p n ++ t "] = " ++ catchAllDef, reads := [t "o", t "o", t "aliases", t "init_kwargs"] }
+
+def catchReqPart (n : S) : Part :=
+  { text := fieldVar n ++ t " = {} if len(o) == i else " ++ catchAllDef,
+    reads := [t "len", t "o", t "i", t "o", t "o", t "aliases"], writes := [fieldVar n] }
+
+def extraKeysPart : Part := { text := t "extra_keys = set(o) - aliases", reads := [t "set", t "o", t "aliases"], writes := [t "extra_keys"] }
+
+def raiseUnknown : S0 :=
+  .exit (t "raise UnknownKeysError(extra_keys, o, cls, fields) from None") [t "UnknownKeysError", t "extra_keys", t "o", t "cls", t "fields"]
+
+def warnPart : Part :=
+  { text := t "LOG.warning('Found %d unknown keys %r not mapped to the dataclass schema.\\n  Class: %r\\n  Dataclass fields: %r', len(extra_keys), extra_keys, cls.__qualname__, [f.name for f in fields])",
+    reads := [t "LOG", t "len", t "extra_keys", t "extra_keys", t "cls", t "fields"] }
+
+def countCond : S := t "len(o) != i"
+def countReads : List S := [t "len", t "o", t "i"]
+
 /-- the catch-all entry, else the unknown-key block -/
 def afterStmts (p : Char → Bool) (g : VIn) : List S2 :=
   match g.catchAll with
-  | .dflt n => [.s1 (.ifc (t "len(o) != i") [t "len", t "o", t "i"] [] []
-      [.line [{ text := t "init_kwargs[" ++ pyRepr p n ++ t "] = " ++ catchAllDef, reads := [t "o", t "o", t "aliases", t "init_kwargs"] }]])]
-  | .required n _ => [.s1 (.s0 (.line [{ text := fieldVar n ++ t " = {} if len(o) == i else " ++ catchAllDef,
-                                         reads := [t "len", t "o", t "i", t "o", t "o", t "aliases"], writes := [fieldVar n] }]))]
+  | .dflt n => [.s1 (.ifc countCond countReads [] [] [.line [catchDfltPart p n]])]
+  | .required n _ => [.s1 (.s0 (.line [catchReqPart n]))]
   | .none =>
     match g.unknown with
     | .none => []
-    | .raise => [.s1 (.ifc (t "len(o) != i") [t "len", t "o", t "i"] [] []
-        [.line [{ text := t "extra_keys = set(o) - aliases", reads := [t "set", t "o", t "aliases"], writes := [t "extra_keys"] }],
-         .exit (t "raise UnknownKeysError(extra_keys, o, cls, fields) from None") [t "UnknownKeysError", t "extra_keys", t "o", t "cls", t "fields"]])]
-    | .warn => [.s1 (.ifc (t "len(o) != i") [t "len", t "o", t "i"] [] []
-        [.line [{ text := t "extra_keys = set(o) - aliases", reads := [t "set", t "o", t "aliases"], writes := [t "extra_keys"] }],
-         .line [{ text := t "LOG.warning('Found %d unknown keys %r not mapped to the dataclass schema.\\n  Class: %r\\n  Dataclass fields: %r', len(extra_keys), extra_keys, cls.__qualname__, [f.name for f in fields])",
-                  reads := [t "LOG", t "len", t "extra_keys", t "extra_keys", t "cls", t "fields"] }]])]
+    | .raise => [.s1 (.ifc countCond countReads [] [] [.line [extraKeysPart], raiseUnknown])]
+    | .warn => [.s1 (.ifc countCond countReads [] [] [.line [extraKeysPart], .line [warnPart]])]
 
 def insertAt (l : List S) (i : Nat) (x : S) : List S := l.take i ++ x :: l.drop i
 
@@ -345,9 +362,12 @@ def ctorVars (g : VIn) : List S :=
 def ctorText (g : VIn) : S :=
   t "return cls(" ++ joinWith (t ", ") (ctorVars g ++ (if g.hasDefaults then [t "**init_kwargs"] else [])) ++ t ")"
 
-def tailStmts (g : VIn) : List S2 :=
-  [.tryUnbound (ctorText g) ([t "cls"] ++ (if g.hasDefaults then [t "init_kwargs"] else [])) (ctorVars g)
-    [.line [{ text := t "raise_missing_fields(locals(), o, cls, fields)", reads := [t "raise_missing_fields", t "locals", t "o", t "cls", t "fields"] }]]]
+def ctorReads (g : VIn) : List S := [t "cls"] ++ (if g.hasDefaults then [t "init_kwargs"] else [])
+
+def missingPart : Part :=
+  { text := t "raise_missing_fields(locals(), o, cls, fields)", reads := [t "raise_missing_fields", t "locals", t "o", t "cls", t "fields"] }
+
+def tailStmts (g : VIn) : List S2 := [.tryUnbound (ctorText g) (ctorReads g) (ctorVars g) [.line [missingPart]]]
 
 def genBody (p : Char → Bool) (g : VIn) : List S2 := headStmts g ++ (fieldBlock p g ++ (afterStmts p g ++ tailStmts g))
 
